@@ -138,6 +138,16 @@ def plan_c15(pid, rng, quick):
                                      {"gen": "parents", "n": n_, "nres": n_, "with": "resattr", "nodump": True},
                                      otap.rand_batch(rng, rich=2), otap.rand_batch(rng, rich=1)],
                          "props": [], "mode": 2, "nowire": True, "nodecode": True})
+    # the same, with the schema already up to date when the refused batch arrives (a warm-up batch of the same shape):
+    # the half-written row is then discarded without any schema update
+    for signal, with_ in (("traces", "spanattr"), ("traces", "event"), ("traces", "link"), ("traces", "resattr"), ("logs", "logattr"),
+                          ("logs", "resattr"), ("metrics", "dpattr"), ("metrics", "resattr"), ("traces", "mixed")):
+        nres = 0 if with_ == "resattr" else 1
+        warm = {"gen": "parents", "n": 12, "nres": nres or 12, "with": with_, "nodump": True}
+        big = {"gen": "parents", "n": 65540 if with_ != "mixed" else 80000, "nres": nres or 65540, "with": with_, "nodump": True}
+        plan.append({"id": "mem-err-warm/%s/%s" % (signal, with_), "signal": signal, "opts": {},
+                     "batches": [warm, dict(warm), big, dict(warm), otap.rand_batch(rng, rich=2)],
+                     "props": [], "mode": 2, "nowire": True, "nodecode": True})
     # overflow / reset / rebuild paths
     for i in range(18 if quick else 200):
         signal = rng.choice(["traces", "logs", "metrics"])
@@ -362,6 +372,11 @@ def run(pid, tier_, replay=None):
     else:
         viol, outs, nev, notes = otap.execute(plan, shards=12, timeout=1500 if quick else 7000, binp=binp)
     alloc = otap.allocator_replay(binp, quick, seed) if pid == "C14" else None
+    dct = None
+    if pid in ("C13", "C04", "C08"):
+        # the dictionary state machine: Dictionary.tla exhaustively, and DictObs.tla on every dictionary column of every recorded stream
+        dct = dict(zip(("states", "generated", "runs", "issues"), otap.dictionary_mc(quick)))
+        dct["obs"] = otap.run_dictobs(outs, plan, timeout=1500 if quick else 7000)
     stats = otap.summarize(outs)
     found = []
     for tr, prop, clause, seq in viol:
@@ -418,6 +433,16 @@ def run(pid, tier_, replay=None):
                samples=samples, traces_validated_against_impl=len(stats), events_judged=nev,
                items_round_tripped=sum(s["items"] for s in stats.values()),
                observer_events=agg, optional_fields_seen=len(fields), streams=len(stats), exhaustive=False)
+    if dct:
+        model_issues.extend(dct["issues"])
+        cov.update(states=dct["states"], transitions=dct["generated"],
+                   dictionary=dict(spec="Dictionary.tla / DictFn.tla / DictObs.tla", model_runs=dct["runs"], columns_followed=dct["obs"]["columns"],
+                                   column_batches_validated=dct["obs"]["records"], conformance_drift=len(dct["obs"]["drift"]),
+                                   drift_samples=dct["obs"]["drift"][:3]))
+        if pid == "C13":
+            cov["traces_validated_against_impl"] = dct["obs"]["columns"] - len({d[1] for d in dct["obs"]["drift"]})
+        for d in dct["obs"]["drift"][:4]:
+            print("DRIFT (not a verdict): Dictionary.tla does not explain column %s of stream %s at batch %s: %s" % (d[1], plan[d[0] - 1]["id"], d[2], d[3]))
     if alloc:
         cov.update(states=alloc["states"], transitions=alloc["generated"],
                    allocator=dict(spec="Allocator.tla / AllocObs.tla", behaviours_replayed=alloc["behaviours"], real_runs=alloc["runs"],
